@@ -1,12 +1,61 @@
 import Mhub2.Step
+import Mhub2.MinterRelay
 open Mhub2
+
+/-- `a:b:c,a:b:c` (or `-`) → hub transactions. -/
+def parseHubTxs (s : String) : Option (List HubTx) :=
+  if s == "-" then some []
+  else (s.splitOn ",").mapM fun item =>
+    match item.splitOn ":" with
+    | [a, b, c] => match a.toNat?, b.toNat?, c.toNat? with
+      | some a, some b, some c => some ⟨a, b, c⟩
+      | _, _, _ => none
+    | _ => none
+
+def parseList (s : String) : List String := if s == "-" then [] else s.splitOn ","
+
+def showList (l : List String) : String := if l.isEmpty then "-" else ",".intercalate l
+
+def showPick : Option HubTx → String
+  | none => "pick none"
+  | some t => s!"pick {t.seq}/{t.nonce}"
+
+/-- The connector's Minter-side decisions as pure functions of what it read from the hub and the node
+    (`mxq ...` lines of the mloop profile; they do not touch the hub state). -/
+def mxq (w : List String) : String :=
+  match w with
+  | ["pickb", qok, last, txs] =>
+    match last.toNat?, parseHubTxs txs with
+    | some l, some t => showPick (relayBatchesPick (qok == "1") l t)
+    | _, _ => "bad-op"
+  | ["pickv", qok, last, txs] =>
+    match last.toNat?, parseHubTxs txs with
+    | some l, some t => showPick (relayValsetsPick (qok == "1") l t)
+    | _, _ => "bad-op"
+  | ["weights", ps] =>
+    match (parseList ps).mapM String.toNat? with
+    | some l => "weights " ++ showList ((minterWeights l).map toString)
+    | none => "bad-op"
+  | ["accept", next, n, ws, bits] =>
+    match next.toNat?, n.toNat?, (parseList ws).mapM String.toNat? with
+    | some a, some b, some l => s!"accept {minterAccepts a b l (bits.toList.map (· == '1'))}"
+    | _, _, _ => "bad-op"
+  | ["sigsb", members, confirmers] => "sigs " ++ showList (batchSignatures (parseList members) (parseList confirmers))
+  | ["sigsv", isMs, members, confirmers] =>
+    "sigs " ++ showList (valsetSignatures (isMs == "1") (parseList members) (parseList confirmers))
+  | _ => "bad-op"
 
 partial def loop (inp : IO.FS.Stream) (out : IO.FS.Stream) (h : World) : IO Unit := do
   let line ← inp.getLine
   if line.isEmpty then return ()
-  let (h', o) := step h line
-  out.putStrLn o
-  loop inp out h'
+  match (line.trimAscii.toString.splitOn " ").filter (· != "") with
+  | "mxq" :: w =>
+    out.putStrLn (mxq w)
+    loop inp out h
+  | _ =>
+    let (h', o) := step h line
+    out.putStrLn o
+    loop inp out h'
 
 def main : IO Unit := do
   let stdin ← IO.getStdin
